@@ -94,6 +94,10 @@ def run(ctx):
             idxs = [0] * n
         ca = [ca[i] for i in idxs]
         dists = [dists[i] for i in idxs]
+        if not nd and rng.random() < 0.3:
+            # candidates as non-contiguous views: windows of one channel of a (time, channel) recording
+            ca = [np.stack([x, np.full(len(x), 50.0 + len(x))], axis=1)[:, 0] for x in ca]
+            ctx.count("strided_candidate_cases")
         fin = sorted(d for d in dists if d != inf)
         md = mv = None
         x = rng.random()
@@ -127,6 +131,21 @@ def run(ctx):
             obj.reset()
             return None
 
+        # two objects built from the *same* options dictionary: the second must behave like a fresh one
+        if it % 3 == 0:
+            try:
+                shared = dict(opts)
+                o1 = SubsequenceSearch(qa, ca, dists_options=shared, use_lb=use_lb, max_dist=md, max_value=mv, use_c=use_c)
+                [m.distance for m in o1.kbest_matches(k=1)]
+                o2 = SubsequenceSearch(qa, ca, dists_options=shared, use_lb=use_lb, max_dist=md, max_value=mv, use_c=use_c)
+                got2 = [float(m.distance) for m in o2.kbest_matches(k=min(3, n))]
+                exp2 = expected(dists, min(3, n), eff)
+                ctx.count("shared_options_checks")
+                if len(got2) != len(exp2) or any(not oracle.close(x, y) for x, y in zip(got2, exp2)):
+                    ctx.violation("history-dependence", reason="second object built from the same options dictionary",
+                                  got=got2, expected_distances=exp2, dictionary_now={k: repr(v) for k, v in shared.items()}, **wit)
+            except Exception as e:
+                ctx.violation("exception", fn="shared options", error=repr(e)[:300], **wit)
         ops = []
         for _ in range(rng.randint(1, 5)):
             y = rng.random()
